@@ -155,9 +155,7 @@ func runC17(t *testing.T, scAny any, trace bool) *Outcome {
 	var stopTimedOut simrt.Counter
 	var maxStall time.Duration
 	for _, f := range sc.Stalls {
-		if f.Stall > maxStall {
-			maxStall = f.Stall
-		}
+		maxStall += f.Stall // the longest a single request can be held up: it may run into every stalled call in turn
 	}
 	res := Bubble(t, sc.Sched.config(trace), nil, func() {
 		simrt.Event("scenario %x", simrt.Hash(hashBytes(mustJSON(sc))))
@@ -442,10 +440,7 @@ func runC17(t *testing.T, scAny any, trace bool) *Outcome {
 		}
 		// quiescence: every client has closed; the server notices and uncounts. Injected accept errors delay
 		// the accept of connections already in the backlog (the accept loop backs off 100 ms per error)
-		settle := 200 * time.Millisecond
-		for _, f := range sc.Stalls {
-			settle += f.Stall // one request can run into several stalled calls, one after the other
-		}
+		settle := maxStall + 200*time.Millisecond
 		for _, ae := range sc.AcceptErrs {
 			settle += time.Duration(ae[1]) * 110 * time.Millisecond
 		}
